@@ -12,7 +12,7 @@ def rand_value(rng, depth=0):
     if r < 0.25:
         return rng.randrange(-5, 100)
     if r < 0.4:
-        return rng.choice(["", "s", "line1\nline2", "tab\t", "quote\"q", "back\\slash", "é中", "\u0001ctl", "null", "a\ufeffb", "\ufeff", "ls\u2028ps\u2029", "\x7f\x00", "\U0001f600"])
+        return rng.choice(["", "s", "line1\nline2", "tab\t", "quote\"q", "back\\slash", "é中", "\u0001ctl", "null", "a\ufeffb", "\ufeff", "ls\u2028ps\u2029", "nel\x85nel", "ws \x0b\x0c\x1c\x1d\x1e ", "trail \r", "\x7f\x00", "\U0001f600"])
     if r < 0.5:
         return rng.choice([None, True, False])
     if r < 0.6:
@@ -123,7 +123,7 @@ def make(rng, shape, json_layer):
         if rng.random() < 0.4:
             jk["ensure_ascii"] = rng.choice([True, False])
         if rng.random() < 0.3:
-            jk["separators"] = [",", ":"]
+            jk["separators"] = rng.choice([[",", ":"], [", ", ": "], [" , ", " : "], [",\t", ":"]])
         jk["jsonmaxlevel"] = jmax
         jk["customdict"] = custom
         if rng.random() < 0.3:
